@@ -173,6 +173,20 @@ func refsOf(e *Entity, rk string) []Ref {
 	return out
 }
 
+// EscName spells the bytes of a real name the way the model names are written: printable ASCII as is, every other
+// byte (and the backslash and the quote) as a backslash and two upper-case hex digits (model name `a\00` = a, NUL).
+func EscName(n string) string {
+	var sb strings.Builder
+	for i := 0; i < len(n); i++ {
+		if c := n[i]; c < 0x20 || c >= 0x7f || c == '\\' || c == '"' {
+			fmt.Fprintf(&sb, "\\%02X", c)
+		} else {
+			sb.WriteByte(c)
+		}
+	}
+	return sb.String()
+}
+
 // ident spells a name: bare where the LLVM lexer allows it, quoted otherwise.
 func ident(n string) string {
 	bare := n != ""
@@ -530,7 +544,17 @@ func (r *renderer) entity(sbp *strings.Builder, i int) {
 			if t := r.findGlob(e.Refs[0].To); t != nil && t.Body == "as1" {
 				fmt.Fprintf(&sb, "%s = alias %s, %s %s\n", gname(key), r.contentType(t), r.ptrType(e.Refs[0].To), gname(e.Refs[0].To))
 			} else {
-				fmt.Fprintf(&sb, "%s = alias i8, %s\n", gname(key), r.asI8(e.Refs[0].To))
+				// aux: the constant expression the aliasee is wrapped in (an alias chain through expressions)
+				switch op := r.asI8(e.Refs[0].To); e.Refs[0].Aux {
+				case "bitcast":
+					fmt.Fprintf(&sb, "%s = alias i8, i8* bitcast (%s to i8*)\n", gname(key), op)
+				case "gep":
+					fmt.Fprintf(&sb, "%s = alias i8, i8* getelementptr (i8, %s, i64 1)\n", gname(key), op)
+				case "asc":
+					fmt.Fprintf(&sb, "%s = alias i8, i8 addrspace(1)* addrspacecast (%s to i8 addrspace(1)*)\n", gname(key), op)
+				default:
+					fmt.Fprintf(&sb, "%s = alias i8, %s\n", gname(key), op)
+				}
 			}
 		case "ifunc":
 			fmt.Fprintf(&sb, "%s = ifunc void (), void ()* ()* %s\n", gname(key), gname(e.Refs[0].To))
